@@ -107,6 +107,12 @@ def schedule_cases(rng, tier):
             seqs.append([(s, gid) for s in [sents[0]] + rest])
         for _ in range(rng.randint(0, 3)):
             seqs.append([(make_sentence(rng, rng.choice([None, b's:a', b'n:5,s:b']), bodies), None)])
+        if rng.random() < 0.3:
+            # a sentence whose tag block cannot be parsed (no checksum, a checksum that is not hexadecimal, two
+            # checksums - even with a group field inside) belongs to no group: a singleton, at once
+            bad = rng.choice([b'\\s:x,c:123\\', b'\\s:y*ZZ\\', b'\\s:z*2A*2A\\', b'\\g:1-2-%d\\' % gids[0],
+                              b'\\g:1-2-%d*GG\\' % gids[0], b'\\*\\'])
+            seqs.append([(bad + make_sentence(rng, None, bodies), None)])
         cases.append(('random', gen.random_interleaving(rng, seqs), tots))
     return cases
 
